@@ -546,16 +546,19 @@ def run(ctx: Ctx):
     exhaustive(ctx, ["wca", "wca"], "sync", 400)
     exhaustive(ctx, ["wca", "wra"], "sync", 400)
     exhaustive(ctx, ["wca", "wca"], "line", 2000)
-    generate(ctx, ctx.n(3000, 20000), rng)
+    generate(ctx, ctx.n(3000, 12000), rng)
     malformed(ctx, rng.fork(3), ctx.n(60, 600))
     if ctx.tier == "thorough":
-        exhaustive(ctx, ["wca", "wca"], "line", 60000)
-        exhaustive(ctx, ["wca", "wra"], "line", 60000)
-        exhaustive(ctx, ["wca", "wca", "wca"], "sync", 60000)
-        exhaustive(ctx, ["wca", "wra", "wca"], "sync", 60000)
-        exhaustive(ctx, ["wca", "wca", "rd"], "sync", 60000)
-        exhaustive(ctx, ["wca", "wca", "wca"], "line", 30000, bound=2, use_keys=False)
-        exhaustive(ctx, ["wca", "wca", "rd"], "line", 30000, bound=2, use_keys=False)
+        # exhaustive at line granularity (every interleaving of the source lines of the anchored functions; a state
+        # seen before is not expanded again): 2 writers in all role mixes, 3 writers, 2 writers + 1 reader
+        for roles in (["wca", "wca"], ["wca", "wra"], ["wra", "wca"], ["wcn", "wca"], ["wca", "rd"]):
+            exhaustive(ctx, roles, "line", 20000)
+        for roles in (["wca", "wca", "wca"], ["wca", "wra", "wca"], ["wra", "wra", "wca"], ["wca", "wca", "rd"], ["wra", "wca", "rd"]):
+            exhaustive(ctx, roles, "sync", 20000)
+        exhaustive(ctx, ["wca", "wca", "wca"], "line", 40000)
+        exhaustive(ctx, ["wca", "wca", "rd"], "line", 60000)
+        # beyond the exhaustive scopes: 4 writers, at most 2 preemptive switches, lock/event granularity
+        exhaustive(ctx, ["wca", "wra", "wca", "wca"], "sync", 6000, bound=2, use_keys=False)
 
 
 def search(ctx: Ctx):
